@@ -434,7 +434,7 @@ def step (s : DState) (line : String) : DState × List String :=
                 let a := renderT t
                 let b := renderT r
                 if a != b then diff s "MODEL" s!"impl={a} model={b}" else (s, [])
-          | _ => diff s "PROTO" "unparsable dump"
+          | _ => diff s "INV" "the dump of the real tree cannot be read back as a tree"
     | [mm, t] =>
       if mm == "min" || mm == "max" then
         withTree s t fun _ ts =>
